@@ -352,7 +352,7 @@ def g_b64(rng):
 
 
 # characters around the borders of the XML 1.0 (5th ed.) NameStartChar / NameChar ranges and of Python's \w, \d:
-# classified alike (accepted or rejected by both) and classified differently (F10n) in either direction
+# accepted or rejected by both; the last groups were classified differently before fix-c10-4 (former F10n)
 NAME_EXOTIC = ('\u00e9\u00df\u00c0\u00d6\u00d8\u00f6\u00f8\u02ff\u0370\u037d\u037f\u1fff\u200c\u200d\u2c00\u3001\u4e2d\ud7ff\uf900\ufdcf\ufdf0\ufffd'
                '\U00010000\U000effff\u00b7\u0300\u036f\u203f\u2040\u0660\u0663'           # names per XML
                '\u00d7\u00f7\u037e\u2000\u200b\u200e\u206f\u2190\u2bff\u2ff0\u3000\ud7fb\ufdd0\ufdef\ufffe\uffff\U000f0000\U0010ffff'
@@ -554,26 +554,6 @@ CORPUS = [
 ]
 
 
-# the patterns of the pinned tree (finding F10n): a deviation from the XML productions is excused only when the
-# implementation behaves exactly as these patterns do
-_PINNED_NAME_PATTERNS = {
-    'NCName': r'^[^\d\W][\w.\-\u00B7\u0300-\u036F\u203F\u2040]*$',
-    'Name': r'^(?:[^\d\W]|:)[\w.\-:\u00B7\u0300-\u036F\u203F\u2040]*$',
-    'NMTOKEN': r'^[\w.\-:\u00B7\u0300-\u036F\u203F\u2040]+$',
-    'QName': (r'^(?:(?P<prefix>[^\d\W][\w\-.\u00B7\u0300-\u036F\u0387\u06DD\u06DE\u203F\u2040]*):)?'
-              r'(?P<local>[^\d\W][\w\-.\u00B7\u0300-\u036F\u0387\u06DD\u06DE\u203F\u2040]*)$'),
-}
-_PINNED_COMPILED = {}
-
-
-def pinned_name_accepts(family: str, s: str) -> bool:
-    import re
-    if family not in _PINNED_COMPILED:
-        _PINNED_COMPILED[family] = re.compile(_PINNED_NAME_PATTERNS[family])
-    x = s.strip(' \t\n\r') if family == 'QName' else xsd_collapse(s)
-    return _PINNED_COMPILED[family].match(x) is not None
-
-
 def name_boundary_cases():
     """every border of the XML 1.0 (5th ed.) NameStartChar / NameChar ranges (first and last code point of each range and the
     neighbours outside), in first and in later position, for the four pattern families — a deterministic sweep"""
@@ -765,13 +745,9 @@ def lexical_cases(run: Run, impl: Impl, cases: list) -> None:
                 else:
                     got_n = ('ok:' + cps(str(val))) if kind == 'ok' else val
                 st.count('lex:name-model:' + t)
-                pinned = 'ok' if pinned_name_accepts(NAME_TYPES[t], s) else 'ERR:V'
-                if 'n' in nfl:
+                if 'n' in nfl:     # cannot happen while EPV.C10.name_tables_agree holds (F10n fixed on fix-c10-4)
                     st.count('lex:flag:name-char-classified-differently')
-
-                def f10n(got):     # a deviation is excused only for exactly the behaviour of the pinned \\w-based pattern
-                    return ['F10n'] if 'n' in nfl and got.split(':')[0] + (':V' if got.startswith('ERR') else '') == pinned else []
-                tags_n = f10n(got_n)
+                tags_n = []
                 if t == 'QName':
                     # the constructor itself with a bound namespace: any prefix is acceptable, only the lexical form counts
                     try:
@@ -786,7 +762,7 @@ def lexical_cases(run: Run, impl: Impl, cases: list) -> None:
                         run.disagree(Disagreement(case, impl=got_q, model=mm, what='qname-ctor-model', site='qname.py AbstractQName.__init__'))
                     if got_q != sp:
                         run.disagree(Disagreement(case, impl=got_q, model=mm, spec=sp, what='qname-ctor-vs-xml-production',
-                                                  site='qname.py AbstractQName.__init__', tags=f10n(got_q)))
+                                                  site='qname.py AbstractQName.__init__', tags=[]))
                 if qname_ns_error:
                     pass       # undeclared prefix (FONS0004): only the bound constructor above is compared
                 elif got_n != mm:        # the tie first: the tables of the model are generated from the live patterns
